@@ -28,6 +28,7 @@ INPUTS = {
     "pseudo": [{"a": "1", "b": "2020-01-01", "c": {"d": "12:30", "f": "true"}, "e": ["1.5"]}, {"a": "2", "b": None, "c": {"d": "13:30", "f": "false"}, "e": []}],
     "shared": [{"id": 1, "billing": {"street": "s", "geo": {"lat": 1.5, "lon": 2.5}}, "shipping": {"carrier": "c", "eta": 3, "geo": {"lat": 3.5, "lon": 4.5}},
                 "kind": "x"}],
+    "reserved": [{"field": 1, "attr": "x", "dataclass": True, "type": 2, "optional": None, "convert_strings": "1"}],
     "literal": [{"kind": "a", "st": "x", "sub": {"mode": "on"}}, {"kind": "b", "st": "y", "sub": {"mode": "off"}}, {"kind": "c", "st": "x", "sub": {"mode": "on"}}],
 }
 
@@ -44,6 +45,10 @@ EVENTS = {
     "G_pseudo_pyd": ("G", "pseudo", "pydantic", "flat", {}, "explicit"),
     "G_pseudo_pyd_style_noactual": ("G", "pseudo", "pydantic", "flat", {"types_style": "noactual"}, "explicit"),
     "G_pseudo_base_defaultreg": ("G", "pseudo", "base", "flat", {}, "default_registry"),
+    "G_reserved_pyd": ("G", "reserved", "pydantic", "flat", {}, "explicit"),
+    "G_reserved_base": ("G", "reserved", "base", "flat", {}, "explicit"),
+    "G_pseudo_base_conv": ("G", "pseudo", "base", "flat", {"post_init_converters": True}, "explicit"),
+    "G_pseudo_attrs_conv": ("G", "pseudo", "attrs", "flat", {"post_init_converters": True}, "explicit"),
     "G_shared_flat": ("G", "shared", "pydantic", "flat", {}, "explicit"),
     "X_shared_nested": ("X", "shared", "nested", None),
     "B_r1": ("B", "r1", "tree"),
@@ -56,7 +61,7 @@ EVENTS = {
     "X_tree_nested": ("X", "tree", "nested", None),
     "X_r1_flat": ("X", None, "flat", "r1"),
 }
-QUICK_EVENTS = ["G_pseudo_base_defaultreg", "G_literal_dc", "G_literal_dc_style_nolit", "G_pseudo_pyd", "G_pseudo_pyd_style_noactual", "G_shared_flat", "X_shared_nested",
+QUICK_EVENTS = ["G_reserved_pyd", "G_reserved_base", "G_pseudo_base_conv", "G_pseudo_attrs_conv", "G_pseudo_base_defaultreg", "G_literal_dc", "G_literal_dc_style_nolit", "G_pseudo_pyd", "G_pseudo_pyd_style_noactual", "G_shared_flat", "X_shared_nested",
                 "G_tree_pyd", "G_pseudo_attrs_nested_dt", "G_literal_dc_conv_ml0", "G_nonascii_pyd_nouni", "G_nonascii_attrs_uni", "B_r1", "B_r2",
                 "R_r1_pyd_flat", "R_r1_attrs_nested", "R_r2_pyd_flat", "R_r2_base_nested", "X_tree_nested", "X_r1_flat"]
 
